@@ -91,13 +91,14 @@ Definition w_bits_ol (srcb : bits) (off len : N) : res bits :=
 Definition w_nnbi (m : mode) (lb ub : option N) (v : N) : res bits :=
   match lb, ub with
   | None, None =>
-      let offset := lz64 v / 8 in
+      let offset := N.min (lz64 v / 8) 7 in
       let len := 8 - offset in
       (* write_length_determinant(None, None, len) with len <= 8: the one-octet form *)
       Ok ([false] ++ skipn 57 (bits64 len) ++ skipn (N.to_nat (8 * offset)) (bits64 v))
   | _, _ =>
       let lower := opt_or lb 0 in
       let upper := opt_or ub I64_MAX in
+      if (v <? lower) || (upper <? v) then Err E_VALUE_RANGE else
       let! range := usub m upper lower in
       let offset_bits := lz64 range in
       let! x := usub m v lower in
@@ -119,20 +120,20 @@ Definition w_length_determinant (m : mode) (lb ub : option N) (v : N) : res (bit
   else if v <? LENGTH_16K then
     let! b := w_nnbi m None (Some (LENGTH_16K - 1)) v in Ok (true :: false :: b, None)
   else
-    let multiple := N.min ((v / LENGTH_16K) mod 256) MAX_FRAGMENTS in
+    let multiple := N.min (v / LENGTH_16K) MAX_FRAGMENTS in
     Ok (true :: true :: skipn 2 (byte_bits multiple), Some (multiple * LENGTH_16K)).
 
 Definition w_2s_compliment (m : mode) (bit_len : N) (v : Z) : res bits :=
-  let! off := usub m 64 (bit_len mod two64) in
-  let! l := usub m 64 off in
-  (* BitBuffer::write_bits_with_offset: len = 64 - off (usize), then the source check *)
-  w_bits_ol (bits64 (u64_of_i64 v)) off l.
+  if (bit_len =? 0) || (64 <? bit_len) then Err E_BITLEN_RANGE else
+  (* (value << shift) >> shift != value  <->  value is not representable in bit_len bits *)
+  if negb ((- 2 ^ (Z.of_N bit_len - 1) <=? v) && (v <? 2 ^ (Z.of_N bit_len - 1)))%Z then Err E_VALUE_RANGE else
+  w_bits_ol (bits64 (u64_of_i64 v)) (64 - bit_len) bit_len.
 
 Definition w_constrained (m : mode) (lb ub v : Z) : res bits :=
-  let! range := isub m ub lb in
-  if (0 <? range)%Z then
-    if ((v <? lb) || (ub <? v))%Z then Err E_VALUE_RANGE
-    else w_nnbi m None (Some (Z.to_N range)) (u64_of_i64 (v - lb))
+  if ((v <? lb) || (ub <? v))%Z then Err E_VALUE_RANGE else
+  (* upper.wrapping_sub(lower) as u64: exact because lb <= v <= ub here *)
+  let range := u64_of_i64 (ub - lb) in
+  if 0 <? range then w_nnbi m None (Some range) (u64_of_i64 (v - lb))
   else Ok [].
 
 Definition w_normally_small (m : mode) (v : N) : res bits :=
@@ -143,7 +144,7 @@ Definition w_normally_small (m : mode) (v : N) : res bits :=
 
 Definition w_semi_constrained (m : mode) (lb v : Z) : res bits :=
   if (v <? lb)%Z then Err E_VALUE_RANGE
-  else let! d := isub m v lb in w_nnbi m None None (u64_of_i64 d).
+  else w_nnbi m None None (u64_of_i64 (v - lb)).      (* wrapping_sub as u64 *)
 
 (* i64::leading_ones / leading_zeros on the bit pattern *)
 Definition lo64 (x : N) : N := lz64 (two64 - 1 - x).
@@ -294,10 +295,10 @@ Definition r_2s_compliment (bit_len : N) (s : src) : res (Z * src) :=
   Ok ((if neg then Z.of_N v - 2 ^ Z.of_N bit_len else Z.of_N v)%Z, s).
 
 Definition r_constrained (m : mode) (lb ub : Z) (s : src) : res (Z * src) :=
-  let! range := isub m ub lb in
-  if (0 <? range)%Z then
-    let! (n, s) := r_nnbi m None (Some (Z.to_N range)) s in
-    let! v := iadd m lb (i64_of_u64 n) in Ok (v, s)
+  let range := u64_of_i64 (ub - lb) in
+  if 0 <? range then
+    let! (n, s) := r_nnbi m None (Some range) s in
+    Ok (iwrap (lb + i64_of_u64 n), s)      (* wrapping_add *)
   else Ok (lb, s).
 
 Definition r_normally_small (m : mode) (s : src) : res (N * src) :=
@@ -307,7 +308,7 @@ Definition r_normally_small (m : mode) (s : src) : res (N * src) :=
 
 Definition r_semi_constrained (m : mode) (lb : Z) (s : src) : res (Z * src) :=
   let! (n, s) := r_nnbi m None None s in
-  let! v := iadd m (i64_of_u64 n) lb in Ok (v, s).
+  Ok (iwrap (i64_of_u64 n + lb), s).                  (* wrapping_add *)
 
 Definition r_unconstrained (m : mode) (s : src) : res (Z * src) :=
   let! (octet_len, s) := r_length_determinant m None None s in
@@ -315,7 +316,8 @@ Definition r_unconstrained (m : mode) (s : src) : res (Z * src) :=
 
 Definition r_enumeration_index (m : mode) (std_variants : N) (extensible : bool) (s : src) : res (N * src) :=
   let small (s : src) :=
-    let! u := usub m std_variants 1 in r_nnbi m None (Some u) s in
+    if std_variants =? 0 then Err E_INVALID_CHOICE else
+    r_nnbi m None (Some (std_variants - 1)) s in
   if extensible then
     let! (ext, s) := r_bit s in
     if ext then
@@ -347,7 +349,7 @@ Definition r_octetstring (m : mode) (lb ub : option N) (extensible : bool) (s : 
   let rest (s : src) :=
     if upper =? 0 then Ok ([], s)
     else if is_some lb && opt_n_eqb lb ub && (upper <? LENGTH_64K) then body upper false s
-    else let! (l, s) := r_length_determinant m lb ub s in body l true s in
+    else let! (l, s) := r_length_determinant m lb ub s in body l (negb (is_some lb) && negb (is_some ub)) s in
   if extensible then
     let! (ext, s) := r_bit s in
     if ext then let! (l, s) := r_length_determinant m None None s in body l true s
@@ -384,7 +386,7 @@ Definition r_bitstring (m : mode) (lb ub : option N) (extensible : bool) (s : sr
     else Ok (bs, bit_len, byte_len, s) in
   let rest (s : src) :=
     if is_some lb && opt_n_eqb lb ub && (upper <? LENGTH_64K) then body upper false s
-    else let! (l, s) := r_length_determinant m lb ub s in body l true s in
+    else let! (l, s) := r_length_determinant m lb ub s in body l (negb (is_some lb) && negb (is_some ub)) s in
   if extensible then
     let! (ext, s) := r_bit s in
     if ext then let! (l, s) := r_length_determinant m None None s in body l true s
